@@ -241,6 +241,67 @@ theorem destruct_run_ok (moves : List Nat) : ∀ (st : (Lyds α × List α) × (
     · rfl
 end
 
+/-! ## the `first_llist` fast path of `lyd_dup` -/
+
+section
+variable (gt : α → α → Bool)
+variable (total : ∀ a b, gt a b = false ∨ gt b a = false)
+variable (trans : ∀ a b c, gt a b = false → gt b c = false → gt a c = false)
+
+include total trans in
+/-- the slow path: every copy through `lyd_insert_node(…, DEFAULT)` -/
+theorem dup_slow_ok : ∀ (ys : List α) (st : Lyds α × List α), LydsOk st.1 st.2 → st.2.Pairwise (fun a b => gt a b = false) →
+    let r := ys.foldl (fun (s : Lyds α × List α) (y : α) =>
+      (s.1.insert gt s.2 y, s.2.takeWhile (fun e => !gt e y) ++ y :: s.2.dropWhile (fun e => !gt e y))) st
+    r.2 = ys.foldl (fun l y => sins (fun a b => !gt a b) y l) st.2 ∧ LydsOk r.1 r.2 ∧ r.2.Pairwise (fun a b => gt a b = false)
+  | [], st, h, hs => ⟨rfl, h, hs⟩
+  | y :: ys, st, h, hs => by
+    simp only [List.foldl_cons]
+    obtain ⟨g1, g2⟩ := lyds_step_ok gt total trans st.1 st.2 (.ins y) h hs
+    exact dup_slow_ok ys _ g1 g2
+
+include trans in
+/-- the fast path: the copies arrive in order behind everything present, there is no tree: appending is the sorted place -/
+theorem dup_fast_ok : ∀ (ys : List α) (k : Nat) (l : List α), (l ++ ys).Pairwise (fun a b => gt a b = false) → k = l.length →
+    let r := ys.foldl (fun (s : Lyds α × List α) (y : α) => ((⟨s.1.tree, s.1.n + 1⟩ : Lyds α), s.2 ++ [y])) ((⟨T.nil, k⟩ : Lyds α), l)
+    r.2 = ys.foldl (fun l y => sins (fun a b => !gt a b) y l) l ∧ LydsOk r.1 r.2 ∧ r.2.Pairwise (fun a b => gt a b = false)
+  | [], k, l, hs, hk => ⟨rfl, ⟨hk, isRB_nil, Or.inl rfl⟩, by simpa using hs⟩
+  | y :: ys, k, l, hs, hk => by
+    simp only [List.foldl_cons]
+    have hle : ∀ a ∈ l, (fun a b => !gt a b) a y = true := by
+      intro a ha
+      rw [List.pairwise_append] at hs
+      simp [hs.2.2 a ha y (List.mem_cons_self ..)]
+    rw [sins_all_le _ y l hle]
+    exact dup_fast_ok ys (k + 1) (l ++ [y]) (by simpa using hs) (by simp [hk])
+
+include total trans in
+theorem dupInto_ok (st : Lyds α × List α) (copies : List α) (h : LydsOk st.1 st.2)
+    (hs : st.2.Pairwise (fun a b => gt a b = false)) (hc : copies.Pairwise (fun a b => gt a b = false)) :
+    (Lyds.dupInto gt st copies).2 = copies.foldl (fun l y => sins (fun a b => !gt a b) y l) st.2 ∧
+    LydsOk (Lyds.dupInto gt st copies).1 (Lyds.dupInto gt st copies).2 ∧
+    (Lyds.dupInto gt st copies).2.Pairwise (fun a b => gt a b = false) := by
+  cases copies with
+  | nil => exact ⟨rfl, h, hs⟩
+  | cons x rest =>
+    obtain ⟨g1, g2⟩ := lyds_step_ok gt total trans st.1 st.2 (.ins x) h hs
+    simp only [Lyds.dupInto]
+    split
+    · -- the fast path: the parent had no instance
+      rename_i hf
+      have hnil : st.2 = [] := by
+        have := (Bool.and_eq_true _ _).mp hf
+        simpa using this.2
+      have hn0 : st.1.n = 0 := by rw [h.1, hnil]; rfl
+      have e1 : st.1.insert gt st.2 x = (⟨T.nil, 1⟩ : Lyds α) := by simp [Lyds.insert, hn0]
+      rw [e1, hnil]
+      simp only [List.takeWhile_nil, List.dropWhile_nil, List.nil_append, List.foldl_cons]
+      have := dup_fast_ok gt trans rest 1 [x] (by simpa using hc) rfl
+      simpa [sins] using this
+    · have := dup_slow_ok gt total trans rest _ g1 g2
+      simpa [lydsStep, sins] using this
+end
+
 end LyModel.Sib.Rb
 
 namespace LyModel.Sib
